@@ -316,10 +316,15 @@ def judge(case):
             finite = np.isfinite(a) & np.isfinite(b)
             rel = float(np.max(np.abs(a[finite] - b[finite]) / (1e-300 + np.maximum(1.0, np.abs(b[finite]))))) if finite.any() else 0.0
             if rel > 1e-9 or reps["readme"]["iteration"] != reps["x64first"]["iteration"]:
-                known = F7 if rel <= 1e-4 else None
+                # root cause of known finding F7: the problem object built before 64-bit mode holds float32 arrays (and the one
+                # built after holds none); how far the results drift apart depends on the configuration (stopping on an exact
+                # zero span at gamma = 1 - 1e-9 amplifies it to different iteration counts)
+                f7 = bool(reps["readme"].get("problem_float32_arrays")) and not reps["x64first"].get("problem_float32_arrays")
+                known = F7 if f7 else None
                 return verdict_fail("precision:construction-order-changes-values",
                                     f"{skind}/{pkind}: README order vs 64-bit-first differ by {rel:.3g} relative "
-                                    f"(iterations {reps['readme']['iteration']} / {reps['x64first']['iteration']})", classes=classes, known=known)
+                                    f"(iterations {reps['readme']['iteration']} / {reps['x64first']['iteration']}); float32 arrays held by the "
+                                    f"problem in README order: {reps['readme'].get('problem_float32_arrays')}", classes=classes, known=known)
         nontrivial = any(c.startswith("gamma") or c.startswith("epsilon") for c in classes) or case.get("precision")
         sample = dict(skind=skind, pkind=pkind, sparams=sparams, iteration=results["kwargs"][0])
         return verdict_ok(nontrivial=bool(nontrivial), classes=classes, sample=sample)
